@@ -173,7 +173,7 @@ def check_logs(w, rep, tier):
         if ok:
             n = theta_of(r)
             want = cm.ew(r, cm.scalar(cm.pdiv(cm.un("atan", n).scale(4), n)), cm.pmul)
-            verdict(rep, "C03.form", "SO3Mrp.log = 4 atan(|r|)/|r| r", L, want, (), w.method_where(Mr, "log")[:2], "MRP log is not 4 atan(|r|) n")
+            verdict_by_branches(rep, "C03.form", "SO3Mrp.log = 4 atan(|r|)/|r| r", L, want, (), w.method_where(Mr, "log")[:2], "MRP log is not 4 atan(|r|) n")
         # ---- DCM
         D = w.G("SO3Dcm")
         X, dp = w.fresh(D, "R")
@@ -280,6 +280,10 @@ def run(w, rep, tier):
     rep.rule("C03.direct-product", "direct-product log is factor-wise")
     check_logs(w, rep, tier)
     check_shadow_flow(w, rep)
+    # Euler log, SE_2(3) exp and every Dcm -> Quat/Mrp route reach log through SO3Quat.from_Matrix: each of its four
+    # selections must be a right inverse of to_Matrix (rule shared with C07; seeded C03-5 flipped one sign in one branch)
+    from .c07 import check_from_matrix
+    check_from_matrix(w, rep, R="C03.flow", RV="C03.flow", RS="C03.flow")
     rep.floor("C03.API", 12)
     rep.floor("C03.form", 5)
     rep.undecided_clause("exp(log X) = X and log(exp x) = x for the SO(3) parameterisations (composition of trigonometric and inverse trigonometric maps)")
